@@ -188,3 +188,82 @@ Definition delete_unlink_fails (content : node -> list node) (isman : node -> bo
            (s : ostore) (n : node) : ostore :=
   let s' := fst (ostep true true true content isman 0 s (PDelete n)) in
   mkO (o_blobs s) (o_bydigest s') (o_tagged s') (o_graph s') (o_dbydigest s') (o_dtagged s').
+
+(* ---- Store.AutoSaveIndex and Store.SaveIndex ----
+   With AutoSaveIndex = false none of Push / Tag / Untag / Delete / GC writes index.json
+   (every saveIndex call in them is guarded by `if s.AutoSaveIndex`); SaveIndex writes it.
+   [astep] wraps [ostep] (the code as it is: all three flags true): when the flag is off the
+   file part of the state is kept as it was.  A reopen loads whatever index.json holds; the
+   step reports false when the index was not saved (resolver and file differ) -- the
+   documented responsibility of the caller. *)
+Record astore := mkA { a_s : ostore; a_auto : bool }.
+Definition empty_astore : astore := mkA empty_store true.
+Inductive aop := AOp (o : oop) | ASetAuto (v : bool) | ASaveIndex.
+Definition keep_disk (s s' : ostore) : ostore :=
+  mkO (o_blobs s') (o_bydigest s') (o_tagged s') (o_graph s') (o_dbydigest s) (o_dtagged s).
+Definition synced_b (s : ostore) : bool :=
+  forallb (fun p => smem p (o_dbydigest s) || smem p (o_dtagged s)) (o_bydigest s) &&
+  forallb (fun p => smem p (o_bydigest s)) (o_dbydigest s ++ o_dtagged s).
+Definition astep (content : node -> list node) (isman : node -> bool) (fuel : nat)
+           (a : astore) (o : aop) : astore * bool :=
+  match o with
+  | ASetAuto v => (mkA (a_s a) v, true)
+  | ASaveIndex => (mkA (osave (a_s a)) (a_auto a), true)
+  | AOp op =>
+      let (s', ok) := ostep true true true content isman fuel (a_s a) op in
+      match op with
+      | PReopen | PForeign _ => (mkA s' (a_auto a), ok && synced_b (a_s a))
+      | _ => (mkA (if a_auto a then s' else keep_disk (a_s a) s') (a_auto a), ok)
+      end
+  end.
+Fixpoint arun content isman fuel (a : astore) (ops : list aop) : astore * bool :=
+  match ops with
+  | [] => (a, true)
+  | o :: r => let (a1, ok1) := astep content isman fuel a o in
+              let (a2, ok2) := arun content isman fuel a1 r in (a2, ok1 && ok2)
+  end.
+
+(* ---- tag names (internal/resolver.Memory: one descriptor per reference; Tag overwrites) ----
+   The store model above knows only WHICH nodes have a name.  This layer keeps the map
+   reference -> node and turns operations on names into operations of [aop]:
+     Tag n under name r     r now means n; the node that r meant before loses it (PUntag when
+                            it has no other name left), then PTag n
+     Untag r                PUntag of the node r meant when that was its last name
+     Delete n               every name of n is gone with it
+   (a Tag of content that is not stored and an Untag of an unknown name fail without effect
+   in the code; the harness issues NTag only for a Tag that succeeded). *)
+Inductive nop := NOp (o : aop) | NTag (n : node) (r : N) | NUntag (r : N).
+Fixpoint nlookup (r : N) (l : list (N * node)) : option node :=
+  match l with [] => None | (k, v) :: t => if N.eqb r k then Some v else nlookup r t end.
+Definition nremove (r : N) (l : list (N * node)) : list (N * node) :=
+  filter (fun kv => negb (N.eqb r (fst kv))) l.
+Definition has_name (x : node) (l : list (N * node)) : bool :=
+  existsb (fun kv => N.eqb x (snd kv)) l.
+Definition ntrans1 (names : list (N * node)) (o : nop) : list (N * node) * list aop :=
+  match o with
+  | NOp (AOp (PDelete n)) => (filter (fun kv => negb (N.eqb n (snd kv))) names, [AOp (PDelete n)])
+  | NOp o => (names, [o])
+  | NTag n r =>
+      let names' := (r, n) :: nremove r names in
+      (names', (match nlookup r names with
+                | Some j => if N.eqb j n || has_name j names' then [] else [AOp (PUntag j)]
+                | None => []
+                end) ++ [AOp (PTag n)])
+  | NUntag r =>
+      match nlookup r names with
+      | Some j => let names' := nremove r names in
+                  (names', if has_name j names' then [] else [AOp (PUntag j)])
+      | None => (names, [])
+      end
+  end.
+Fixpoint translate (names : list (N * node)) (ops : list nop) : list aop :=
+  match ops with
+  | [] => []
+  | o :: t => let (names', l) := ntrans1 names o in l ++ translate names' t
+  end.
+Definition nrun content isman fuel (ops : list nop) : astore * bool :=
+  arun content isman fuel empty_astore (translate [] ops).
+
+(* ---- the specification side: Predecessors computed from the stored set alone ---- *)
+Definition spec_preds (content : node -> list node) (blobs : list node) (n : node) : list node :=
+  filter (fun p => smem n (content p)) (nodup N.eq_dec blobs).
